@@ -280,6 +280,10 @@ func epRich(c *RunCtx, cfg richCfg) *Result {
 					wr.Call = e.Ev(fmt.Sprintf("%s%d.call", kind, i))
 					if kind == "Wait" {
 						r.H.Wait()
+						// once Wait has returned the handle reads Closed
+						if st := r.H.Status(); st != "Closed" {
+							e.Fail("C16", "not-closed-after-wait", st, fmt.Sprintf("job %d reads %s right after Wait returned", i, st))
+						}
 					} else {
 						wr.Val, wr.Err, _ = ResultOf(r.H)
 					}
